@@ -9,24 +9,53 @@ import (
 	"github.com/go-git/go-git/v6/internal/verifrt"
 )
 
+// verifC53Small: the declared packet length stays below 256 (first two hex
+// digits are '0'): the reader slices its buffer with the declared length, so
+// every feasible length is a separate path. Lengths up to 65520 are covered
+// by ParseLength over all four header bytes (below) and by C34.
+func verifC53Small(b []byte) {
+	if len(b) >= 1 {
+		verifrt.Assume(b[0] == '0')
+	}
+	if len(b) >= 2 {
+		verifrt.Assume(b[1] == '0')
+	}
+}
+
+func VerifHarness_C53_parse_length() {
+	b := verifrt.NondetBytes(4)
+	n, err := ParseLength(b)
+	verifrt.Reach("c53-parse-length")
+	if err == nil {
+		verifrt.Assert(n >= 0 && n <= MaxSize, "c53-parse-length-range")
+	}
+}
+
 func VerifHarness_C53_pktline() {
 	b := verifrt.NondetBytes(verifrt.Range(0, verifrt.Param("N")))
+	verifC53Small(b)
 	buf := make([]byte, MaxSize)
 	r := bytes.NewReader(b)
-	for i := 0; i < 3; i++ {
+	for i := 0; i < 2; i++ {
 		if _, err := Read(r, buf); err != nil {
 			break
 		}
-	}
-	br := bufio.NewReader(bytes.NewReader(b))
-	_, _, _ = PeekLine(br)
-	_, _, _ = ReadLine(br)
-	sc := NewScanner(bytes.NewReader(b))
-	for i := 0; i < 3 && sc.Scan(); i++ {
-		_ = sc.Bytes()
 	}
 	if len(b) >= 4 {
 		_, _ = ParseLength(b)
 	}
 	verifrt.Reach("c53-pktline")
+}
+
+func VerifHarness_C53_pktline_buffered() {
+	b := verifrt.NondetBytes(verifrt.Range(0, verifrt.Param("N")))
+	verifC53Small(b)
+	br := bufio.NewReader(bytes.NewReader(b))
+	_, _, _ = PeekLine(br)
+	_, _, _ = ReadLine(br)
+	sc := NewScanner(bytes.NewReader(b))
+	for i := 0; i < 2 && sc.Scan(); i++ {
+		_ = sc.Bytes()
+	}
+	verifrt.Reach("c53-pktline-buffered")
 }
